@@ -5,6 +5,12 @@ def run(prop, tier, seed):
     if prop in plans.SCEN:
         from . import scen_check
         return scen_check.run(prop, tier, seed)
+    if prop == 'C10':
+        from . import gen_match
+        return gen_match.run(prop, tier, seed)
+    if prop == 'C11':
+        from . import gen_range
+        return gen_range.run(prop, tier, seed)
     if prop == 'C12':
         from . import thr
         return thr.run(prop, tier, seed)
@@ -17,5 +23,8 @@ def replay(prop, path):
     if w.get('engine') == 'scen':
         from . import scen_check
         return scen_check.replay(prop, path)
+    if w.get('engine') == 'thr':
+        from . import thr
+        return thr.replay(prop, path)
     print('unknown witness engine')
     return 2
